@@ -59,7 +59,8 @@ MANIFEST = {
     "design_ref": "5/C15",
 }
 MODULES = ["PrimaiteModel.Props.C15", "PrimaiteModel.Props.C15Api", "PrimaiteModel.Props.C15Node", "PrimaiteModel.Props.C15Verbs",
-           "PrimaiteModel.Props.C15Actions", "PrimaiteModel.Props.C15Inventory", "PrimaiteModel.Props.C15Disjoint"]
+           "PrimaiteModel.Props.C15Actions", "PrimaiteModel.Props.C15Inventory", "PrimaiteModel.Props.C15Disjoint",
+           "PrimaiteModel.Props.C15Health"]
 EXE = "drv_c15"
 
 
@@ -67,7 +68,7 @@ H = rig.HEAD  # protocol lines before the first operation
 
 
 def _run_case(case: dict):
-    impl, verdicts, flags = rig.run_impl(case)
+    impl, verdicts, flags, _ = rig.run_impl(case)
     return impl, verdicts, rig.model_lines(case, flags)
 
 
@@ -171,6 +172,15 @@ def run(ctx: Ctx):
         rng3 = ctx.rng.fork("fs-churn")
         for k in range(ctx.scale(1200, 10000)):
             yield f"churn:{k}", rig.gen_churn_case(rng3)
+        # health x deletion: corrupt -> delete -> restore at file and folder level, on every surface
+        depth = ctx.scale(4, 5)
+        ctx.count(f"exhaustive:H:alphabet={len(rig.health_alphabet())}:depth={depth}", len(rig.health_alphabet()) ** depth)
+        for k, ops in enumerate(rig.exhaustive(rig.health_alphabet(), depth)):
+            yield f"exhH{depth}:{k}", {"surface": ("fs", "action", "node")[k % 3], "restore_duration": 1,
+                                      "ops": [["cfile", "fa", "a", False]] + ops}
+        rng5 = ctx.rng.fork("fs-health")
+        for k in range(ctx.scale(800, 12000)):
+            yield f"health:{k}", rig.gen_health_case(rng5, max_ops=ctx.scale(24, 40))
         # node level: a real computer in a small network, power requests interleaved with file operations
         depth = ctx.scale(3, 4)
         for c, cfg in enumerate(rig.node_configs()):
@@ -195,7 +205,9 @@ def run(ctx: Ctx):
         impl_all, verd_all, lines_all, bounds = [], [], [], []
         only = [c for _, c in cases]
         results = pool.map(_impl_only, only, chunksize=max(1, min(250, len(only) // (workers * 4) + 1))) if pool else map(_impl_only, only)
-        for (name, case), (impl, verdicts, flags) in zip(cases, results):
+        for (name, case), (impl, verdicts, flags, stats) in zip(cases, results):
+            for key, n in stats.items():
+                ctx.count(key, n)
             lines = rig.model_lines(case, flags)
             bounds.append((len(lines_all), len(lines)))
             lines_all += lines
